@@ -206,7 +206,7 @@ def gen(rng: random.Random, tier: str) -> dict:
             em = rng.choice(["omit", "fresh", "fresh"] + ([["shared", rng.randrange(n_env)]] * 2 if n_env else []))
             ops.append(["call", j, m, d, em])
             if rng.random() < 0.12:
-                ops.append(["mutate", j, rng.randrange(4)])
+                ops.append(["mutate", j, rng.randrange(4), rng.randrange(1, 1000)])
         elif r < 0.53:
             ops.append([rng.choice(["enable", "disable"]), j, rng.sample(RULE_POOL, rng.randint(1, 3))])
         elif r < 0.59:
@@ -256,7 +256,7 @@ def gen(rng: random.Random, tier: str) -> dict:
         elif r < 0.985:
             # the caller scribbles over what an earlier call returned (tokens, their attrs/meta/map/children, the env):
             # results belong to the caller, so this must not reach any later call
-            ops.append(["mutate", j, rng.randrange(4)])
+            ops.append(["mutate", j, rng.randrange(4), rng.randrange(1, 1000)])
         else:
             ops.append(["bad", j, rng.choice(["src_int", "src_none", "env_list", "env_str", "preset", "rule", "empty_cfg",
                                               "inline_src_bytes"])])
@@ -271,7 +271,7 @@ def gen(rng: random.Random, tier: str) -> dict:
     probes = []
     seen_docs = [op for op in ops if op[0] == "call"]
     for _ in range(rng.randint(1, 4)):
-        m = rng.choice(["render", "render", "parse", "renderInline"])
+        m = rng.choice(["render", "render", "parse", "renderInline", "parseInline"])
         d = docgen.inline_source(rng) if "Inline" in m else (_gen_doc(rng) + rng.choice(["", "", "x @ y\n\n@@\n", "```py\nfine\n```\n"]))
         j = rng.randrange(n_inst)
         if seen_docs and rng.random() < 0.4:
@@ -308,6 +308,7 @@ class _World:
         self.user_options = copy.deepcopy(rec["user_options"])
         self.inst: dict[int, object] = {}
         self.last: dict[int, tuple] = {}      # instance -> (value, env) of its most recent successful call
+        self.lasts: dict[int, list] = {}      # instance -> the last few (value, env) it returned
         self.hook_depth = 0
         self.tags: dict[int, str] = {}        # instance -> tag of its stateful renderer
         mk = collections.UserDict if rec.get("env_type") == "userdict" else dict
@@ -428,7 +429,7 @@ def _needs_linkify_off(ref) -> bool:
     return isinstance(ref, str) and ref in ("gfm-like", "module:gfm_like")
 
 
-def _scribble(value, env, mode: int) -> int:
+def _scribble(value, env, mode: int, salt: int = 0) -> int:
     """The caller's own mutations of what a call returned. Returns the number of objects touched."""
     n = 0
     if isinstance(value, list):
@@ -437,13 +438,13 @@ def _scribble(value, env, mode: int) -> int:
             t = stack.pop()
             n += 1
             if mode in (0, 3):
-                t.attrs["data-verif"] = "scribble"
-                t.meta["verif"] = ["scribble"]
+                t.attrs["data-verif"] = f"scribble{salt}"
+                t.meta["verif"] = ["scribble", salt]
                 t.content = t.content + "SCRIBBLE"
                 t.info = "scribble"
                 t.markup = "!!"
             if mode in (1, 3) and t.map is not None:
-                t.map[:] = [97, 98, 99]
+                t.map[:] = [97 + salt, 98 + salt, 99]
             if t.children:
                 stack.extend(t.children)
                 if mode in (2, 3):
@@ -489,7 +490,9 @@ def _call(md, method, doc, env, keep: list | None = None):
     if keep is not None:
         keep.append(v)
     if method in ("parse", "parseInline"):
-        v = [t.as_dict() for t in v]
+        # a deep copy: as_dict() hands out the token's own map/meta/attrs objects, and a snapshot that aliases them would
+        # change together with whatever the library (wrongly) shares between calls
+        v = copy.deepcopy([t.as_dict() for t in v])
     return ["ok", v]
 
 
@@ -612,8 +615,10 @@ def execute(rec: dict, res: RunResult) -> None:
             state_bearing += 1
             touched = set()
         elif kind == "mutate":
-            last = w.last.get(j)
-            n = _scribble(last[0], last[1], op[2]) if last else 0
+            n = 0
+            for last in w.lasts.get(j, []):          # everything this instance returned recently belongs to the caller
+                n += _scribble(last[0], last[1], op[2], op[3] if len(op) > 3 else 0)
+            w.lasts[j] = []
             res.events.append([k, "mutate", j, op[2], n])
             if n:
                 res.count("caller_mutated_returned_objects")
@@ -633,6 +638,8 @@ def execute(rec: dict, res: RunResult) -> None:
             out = _call(w.inst[j], method, doc, env, keep)
             if keep:
                 w.last[j] = (keep[0], env)
+                w.lasts.setdefault(j, []).append((keep[0], env))
+                del w.lasts[j][:-4]
             res.events.append([k, "call", j, method, out])
             if j in w.tags:
                 res.count("stateful_renderer_class_used")
